@@ -29,7 +29,7 @@ PROPS = {
         [job("main", "^TestC02$", q=4, th=16)]),
     "C03": P("Flow routing follows the table", "exploration",
         "cases = flow graphs + per-visit action scripts: EXHAUSTIVE for 2 nodes x 2 actions x entries{unconnected,nil,n0,n1} x start x cyclic scripts<=2 (quick) and the same for 3 nodes (thorough, 10.1M cases in 16 shards; quick samples it with stride 211); "
-        "rapid: <=12 leaves, <=3 nested flows, 5 prefix-sharing actions, overwrites, nil targets, repeated runs; rapid state-machine: connect/reconnect/run on one live flow; "
+        "rapid: <=12 leaves, <=3 nested flows, 5 prefix-sharing actions, overwrites, nil targets, repeated runs; rapid state-machine: connect/reconnect/run on one live flow; long walks: self-loop, 2-cycle, 3-node cycle with two targets and a loop inside a nested flow, x every leaf kind, walked for 300/1000/4000 (thorough also 20000/100000) node visits before the exit action; "
         "non-trivial = path length>=3 and (cycle, or overwritten/nil connection present, or >=2nd run of the same object)",
         "oracle: reference interpreter (table walk, last Connect wins, nil/missing ends the flow) - visit log, touched leaves, store path and Flow.Run result must all equal the model",
         "exhaustive over the small-scope graph space named in the property, generated search beyond",
@@ -37,7 +37,7 @@ PROPS = {
         T_PBT + "oracle = reference interpreter / model-based state machine",
         [job("main", "^TestC03$", q=4, th=16, tth=3400), job("fuzz", "^$", fuzz="^FuzzC03$", fuzztime=60, tiers=("thorough",), tth=600)]),
     "C04": P("Errors transparent, flows fail-stop", "fault_enumeration",
-        "rapid generates failure-free workflow scenarios (depth<=4); for each, EVERY event of its reference path (leaf visit x phase x attempt) is injected as the single failure in 9 error flavours (sentinel, %w-wrapped, pointer type, value type, errors wrapping context errors, a non-comparable and two net.Error-like types) plus 'all attempts fail'; about one leaf in eight is a batch node used as a flow member (its prep and post are positions, its items are not); "
+        "rapid generates failure-free workflow scenarios (depth<=4); for each, EVERY event of its reference path (leaf visit x phase x attempt) is injected as the single failure in 11 error flavours (user errors whose message imitates the library's own \"run: ...\" / \"flow: ...\" frames and that wrap a sentinel of their own, sentinel, %w-wrapped, pointer type, value type, errors wrapping context errors, a non-comparable and two net.Error-like types) plus 'all attempts fail'; about one leaf in eight is a batch node used as a flow member (its prep and post are positions, its items are not); "
         "plus random multi-failure scripts; non-trivial = the failure ends the run at depth>=1 or is absorbed by retry/fallback",
         "oracle (model-free, over the actual trace): err==nil iff every node run on the path ended with a successful post (an error without a single invoked callback is spurious); the returned error matches (the very value in its Unwrap tree, its inner sentinel too, errors.As finds the type) the LAST failing callback of the trace; no callback after the failing node run",
         "fault enumeration over every position of the executed path of each generated scenario",
@@ -69,7 +69,7 @@ PROPS = {
         T_PBT + "oracle = per-item reference model + differential against single-node run",
         [job("main", "^TestC07$", q=4, th=16)]),
     "C08": P("Concurrency limit hard and usable", "exploration",
-        "cases = gated batches for every c in 0..16 with n=4c+8, all release orders for (n,c) in {(5,2),(6,3),(7,3),(7,4)}, rapid batches (n<=4c+8) and direct WorkerPool scenarios (sizes -1..16, 1..4 submitters, up to 3 Wait rounds), gated or with random virtual durations, plus c-way barrier scenarios; "
+        "cases = gated batches for every c in 0..16 with n=4c+8, all release orders for (n,c) in {(5,2),(6,3),(7,3),(7,4)}, rapid batches (n<=4c+8) and direct WorkerPool scenarios (sizes -1..16, 1..4 submitters, up to 3 Wait rounds), gated or with random virtual durations, plus c-way barrier scenarios; the same untouched batch node object run a second time (every c in 1..16: first run with 0, 1, c-1 or 4c+8 items, then 4c+8 items gated or with a c-way barrier; rapid: first run 0..2c items, second 1..4c+8) - the second run is judged like any run; "
         "non-trivial = n>c>=2 (queue refills) / tasks>3*workers or multiple submitters/rounds",
         "oracle at EVERY quiescent point: in-flight == min(c, unfinished) (upper bound and usability in one equation, re-evaluated after one virtual second without any release before it counts as failed; c==0: exactly one, in item order); atomic high-water mark <= c; c mutually waiting items must complete (else the bubble's deadlock panic is the violation)",
         "schedule exploration with an invariant evaluated at every quiescent point",
@@ -158,7 +158,7 @@ PROPS = {
         T_PBT + "oracle = direct predicate on the exhaustive matrix + metamorphic empty/default twin on generated nested flows",
         [job("main", "^TestC18$", q=2, th=16)]),
     "C19": P("Configuration styles equivalent", "exploration",
-        "cases = setting sequences over {max retries, wait, batch concurrency, batch error handling, prep/exec/post/fallback function} x 3 values x {constructor option (both as NodeOption and as plain func(*BaseNode)), builder method}, for NewNode and NewBatchNode: exhaustive for length<=3 (quick)/<=5 (thorough) over the four scalar parameters, rapid up to length 6 (+2) over all eight; "
+        "cases = setting sequences over {max retries, wait, batch concurrency, batch error handling, prep/exec/post/fallback function} x 3 values (waits 0, 10.500001 ms - not a whole number of ms or us - and 1 h) x {constructor option (both as NodeOption and as plain func(*BaseNode)), builder method}, for NewNode and NewBatchNode: exhaustive for length<=3 (quick)/<=5 (thorough) over the four scalar parameters, rapid up to length 6 (+2) over all eight; "
         "non-trivial = at least two different forms or an overwritten parameter",
         "oracle (metamorphic): expected configuration = last-wins fold over the actual application order; the sequence as given, its all-option and its all-builder realisation must show equal getters AND equal probe behaviour in a bubble (attempts of a failing item, virtual wait between attempts >= configured, in-flight count at the first quiescent point <= c and equal between the realisations, stop vs continue, which function instance ran); untouched parameters keep the documented defaults; outcome of runs with a failing item and of nodes without an exec function only compared between the realisations",
         "metamorphic generated search with exhaustive small scope",
